@@ -157,7 +157,7 @@ theorem evalHist3_refines (tp : List Nat) (e : Nat → Int) (h : Hmm) (he : ∀ 
     rw [hsc, hhi]
     rcases hx with ⟨a, b⟩ | ⟨a, b⟩ | ⟨a, b⟩
     · exact Or.inl ⟨a, fun hl => by rw [b] at hl; exact hl⟩
-    · exact Or.inr ⟨2, by simp, a, fun hl => by have := b hl; unfold live; omega⟩
-    · exact Or.inr ⟨1, by simp, a, fun hl => by have := b hl; unfold live; omega⟩
+    · exact Or.inr ⟨2, by simp, by decide, a, fun hl => by have := b hl; unfold live; omega⟩
+    · exact Or.inr ⟨1, by simp, by decide, a, fun hl => by have := b hl; unfold live; omega⟩
 
 end SSVerif.Search
